@@ -22,7 +22,7 @@ LEVEL_TEXT = ('For every junk entry and every mode the tool is run on {junk}, {g
               'when the junk alone reports nothing; otherwise equal after removing what the junk alone reports). -j compares '
               'the written files. Thorough adds all 255 corruption values and pairs of junk files.')
 LEVEL_NOTE = ('stderr text, unreadable (permission) files and broken symlinks are outside the statement; for -j only the '
-              'written files are compared (its stdout is never a JSON document, with or without junk)')
+              'written files are compared, and its stdout (never a JSON document) must be the same with and without undecodable junk')
 RULE = ('junk = empty | prefix n (all n) | byte off:=v (all off, v in 8 values; thorough 255) | 1-byte file (all 256) | '
         'sub-directory (3 shapes); position in {a, c, g}; modes -l -a -n --plid(2) --src --src-exclude -j, -x variants of '
         '-l/-a, with -E and (prefixes) without. Non-trivial: junk differs from a well-formed PEL; distinct by (junk, '
@@ -234,6 +234,13 @@ def check(env, juncs, mode, every, case):
             fn = '%s.%08X.json' % (name, GOOD[name]['eid'])
             if fg.get(fn) is not None and fb.get(fn) != fg.get(fn):
                 probs.append(('json-file', 'output file %s differs when the junk is present' % fn))
+        if not fs:
+            # the junk is not decodable (alone it produces no file): diagnostics about it belong on stderr only
+            norm = lambda t, which: t.replace(os.path.join(env.root, which), '<dir>')
+            if norm(rb.stdout, 'both') != norm(rg.stdout, 'good'):
+                probs.append(('json-stdout', '--json prints %r on stdout when the (undecodable) junk is present, %r without it'
+                              % (norm(rb.stdout, 'both')[:120], norm(rg.stdout, 'good')[:60])))
+        LAST['junk'] = 'decodable' if fs else 'undecodable'
         return probs
     try:
         vs = parse_out(mode, rs.stdout)
